@@ -304,3 +304,61 @@ func VerifC16_R4(v *VerifV) {
 	k, c2, rest, serr := Split(enc)
 	v.Assert(serr == nil && k != List && len(c2) == size && len(rest) == 0, "C16.bytes.split-roundtrip")
 }
+
+// VerifC16_R7: Stream.Raw (which re-creates the header it has consumed) and the size helpers
+// ListSize / headsize on items around the short/long header boundary: for a string or list
+// whose payload has n bytes, n in {0,1,2,54..58,255,256,257}, with symbolic content, Raw returns
+// exactly the canonical encoding it read (so it round-trips and re-splits), and the size helpers
+// agree with the length of that encoding.
+func VerifC16_R7(v *VerifV) {
+	sizes := []int{0, 1, 2, 54, 55, 56, 57, 58, 255, 256, 257}
+	size := sizes[v.Choice("n", len(sizes))]
+	list := v.Bool("list")
+	content := make([]byte, size)
+	// symbolic first/last content bytes (the ones a wrong header size would overwrite or drop)
+	for _, i := range []int{0, 1, size - 2, size - 1} {
+		if i >= 0 && i < size {
+			content[i] = v.U8("content-byte")
+		}
+	}
+	if list {
+		// a list payload must itself be a sequence of items: single-byte items
+		for i := range content {
+			v.Assume(content[i] < 0x80)
+		}
+	} else if size == 1 {
+		v.Assume(content[0] >= 0x80) // a single byte below 0x80 is its own encoding
+	}
+	// reference encoding (Yellow Paper)
+	var enc []byte
+	base := byte(0x80)
+	if list {
+		base = 0xC0
+	}
+	switch {
+	case size < 56:
+		enc = append(enc, base+byte(size))
+	case size < 256:
+		enc = append(enc, base+55+1, byte(size))
+		v.Cover("long-form")
+	default:
+		enc = append(enc, base+55+2, byte(size>>8), byte(size))
+	}
+	enc = append(enc, content...)
+	s := NewStream(bytes.NewReader(enc), 0)
+	raw, err := s.Raw()
+	v.Assert(err == nil, "C16.raw.error-on-canonical-item")
+	v.Assert(len(raw) == len(enc), "C16.raw.length-differs-from-input")
+	if err == nil && len(raw) == len(enc) {
+		for i := range raw {
+			v.Assert(raw[i] == enc[i], "C16.raw.bytes-differ-from-input")
+		}
+	}
+	if list {
+		v.Assert(ListSize(uint64(size)) == uint64(len(enc)), "C16.size.listsize-differs-from-encoding")
+	}
+	v.Assert(headsize(uint64(size)) == len(enc)-size, "C16.size.headsize-differs-from-encoding")
+	if size == 56 {
+		v.Cover("boundary-56")
+	}
+}
